@@ -50,4 +50,9 @@ CHECKS = {
   "text": "Decoder: every window of the structured byte space plus random strings is decoded; exceptions, failing renderings (4 formats), accepted truncations, dependence on bytes after the instruction and wrong stream bookkeeping (offset 1..3) are failures. Assembler: asm and asm_att are called on generated token sequences (<= 8 tokens), on structured lines with boundary immediates and on one-token mutations of rendered instructions; anything but a list of byte strings, the (prefix, []) pair, or ValueError is a failure. Failures are bucketed by (entry point, exception type, innermost miasmx/ply function[, mnemonic]).",
   "note": "Self-consistency only: a decoder that is consistently wrong about a length is C01's subject (reference decoder). Hangs: 20 s watchdog nominates, 3*10^6 executed lines under settrace confirms; C-level stalls are not detected by that second step. ~300 existing crash sites (mostly the AT&T renderer's missing mnemonics) are listed as open known findings.",
  },
+ "C02": {
+  "technique": "Hypothesis-generated structured instruction specs rendered in Intel and AT&T syntax; every assembler candidate decoded by reference disassemblers (objdump, LLVM arbiter) and compared with the spec through the normal form; range rule for immediates",
+  "text": "Specs (mnemonic x operand shape from a ~900-entry family table x registers x memory operands over base/index/scale/displacement/segment x immediates at every width boundary) are printed by the harness's own Intel and AT&T printers, assembled with asm/asm_att, and ALL returned candidates are decoded by objdump: each must be one instruction of exactly len(candidate) bytes whose mnemonic, operands, sizes, displacement and immediate (as an integer under the operand width, out-of-range values must produce no candidate) are those of the spec.",
+  "note": "Trusted: objdump/LLVM agreement, vlib/nf.py, the family table and printers in vlib/asmgen.py (cr/dr register names are not generated: the parser treats them as symbols). Relative-branch numbers follow miasmX's displacement convention. Lines the assembler rejects are outside the domain. 43 existing defects are listed (silent immediate truncation, bogus extra MMX/SSE candidates, dropped ds: override on ebp/esp bases, out dx,eax).",
+ },
 }
